@@ -67,6 +67,31 @@ def step_sig(rec, names=None):
     return sig
 
 
+def contraction_slack(rec, exp_rho, dims, names):
+    """Extra tolerance when the library contracted a not-exactly-pure block.
+
+    contract() treats |Tr rho^2 - 1| < 1e-6 as pure (documented tolerance `tol`), so a block whose expected purity
+    deficit lies in (1e-9, 1e-5) and that the library now stores as a vector may differ from the exact state by up
+    to ~1e-6.  Generators avoid that zone for the states they build, but a non-unitary operator, a channel or a
+    measurement can move a state into it."""
+    if not (rec.contraction or rec.step["k"] == "contract"):
+        return 0.0
+    try:
+        for b in blocks(rec.post):
+            if b["level"] == "M" or not all(m in names for m in b["members"]):
+                continue
+            r = ref.reduced(exp_rho, dims, [names.index(m) for m in b["members"]])
+            tr = np.trace(r).real
+            if tr <= 0:
+                continue
+            deficit = 1 - ref.purity(r / tr)
+            if 1e-9 < deficit < 1e-5:
+                return 2e-6
+    except Malformed:
+        pass
+    return 0.0
+
+
 def pre_ok(rec):
     """the pre-state is readable and every stored block is a valid quantum state (the properties speak about
     valid states; what an earlier defect left behind is not held against the call under judgement)"""
@@ -115,6 +140,8 @@ def judge_apply(rec, prop):
     if gd != exp["dims"]:
         return [V(prop, "violated", "post-dims", f"{gd} vs {exp['dims']}", cell=cell, **sig)]
     ok, err, meas = S.compare_states(got, exp["rho"], exp["approx"])
+    if not ok and not exp["approx"] and err <= S.EXACT_TOL + contraction_slack(rec, exp["rho"], exp["dims"], exp["names"]):
+        ok = True
     if ok:
         return [V(prop, "held", cell=cell, **sig)]
     if exp["approx"]:
@@ -170,7 +197,7 @@ def judge_c02(rec):
         out.append(V("C02", "violated", "live-set-changed", f"{lv}->{live(rec.post)} dims {d0}->{d1}", cell=cell, **sig))
     else:
         e = ref.maxdiff(r0, r1)
-        if e > S.EXACT_TOL:
+        if e > S.EXACT_TOL + contraction_slack(rec, r0, d0, lv):
             out.append(V("C02", "violated", "state-changed", f"maxabs={e:.3g}", cell=cell, **sig))
         else:
             out.append(V("C02", "held", cell=cell, **sig))
@@ -249,7 +276,7 @@ def judge_c06(rec):
         return [V("C06", "violated", "post-unreadable", str(e), cell=cell, **sig)]
     e = ref.maxdiff(got, exp["rho"])
     out = []
-    if e > S.EXACT_TOL:
+    if e > S.EXACT_TOL + contraction_slack(rec, exp["rho"], exp["dims"], exp["names"]):
         out.append(V("C06", "violated", "wrong-state", f"maxabs={e:.3g} trace={np.trace(got).real:.6g}", cell=cell, **sig))
     else:
         out.append(V("C06", "held", cell=cell, **sig))
@@ -477,7 +504,7 @@ def judge_measure(rec, prop):
     if e["prob"] < 1e-9:
         return out + [V(prop, "inconclusive", "tiny-branch", f"p={e['prob']:.3g}", cell=cell, **sig)]
     # the collapsed state is divided by the outcome probability: rounding errors grow with 1/p
-    if err > S.EXACT_TOL + 1e-13 / e["prob"]:
+    if err > S.EXACT_TOL + 1e-13 / e["prob"] + contraction_slack(rec, e["rho"], e["dims"], e["names"]):
         out.append(V(prop, "violated", "wrong-collapse", f"maxabs={err:.3g} (p={e['prob']:.3g})", cell=cell, **sig))
     else:
         out.append(V(prop, "held", cell=cell, **sig))
@@ -618,7 +645,7 @@ def judge_c09(rec):
     err = ref.maxdiff(got, want)
     if pk < 1e-9:
         return out + [V("C09", "inconclusive", "tiny-branch", f"p={pk:.3g}", cell=cell, **sig)]
-    if err > S.EXACT_TOL + 1e-13 / pk:
+    if err > S.EXACT_TOL + 1e-13 / pk + contraction_slack(rec, want, [dims[names.index(n)] for n in keep], keep):
         out.append(V("C09", "violated", "wrong-post-state", f"maxabs={err:.3g} (p={pk:.3g})", cell=cell, **sig))
     if not any(v["status"] == "violated" for v in out):
         out.append(V("C09", "held", cell=cell, **sig))
